@@ -86,6 +86,16 @@ CHECKS = {
         "note": "Injectivity ignoring case is derived (outputs have no upper-case letters and Unesc inverts Esc) and cross-checked by hashing on the Go side. Bounds: alphabet and length.",
         "technique": TLA + "escape encoding specification; spec-generated strings replayed into the code, recorded calls trace-validated",
     },
+    "C18": {
+        "text": "Bounded-exhaustive: Pseudo.tla builds pseudo-versions by the five documented forms and inverts them; TLC checks recognition, recovery of base (with build suffix), time and revision, base < pseudo < next release and time monotonicity for all revision pairs over 19 bases x 5/8 times x 6 revisions; each case is replayed into PseudoVersion, IsPseudoVersion, PseudoVersionBase/Time/Rev and semver.Compare with zones and sub-second parts added by the harness; random bases, times (years 1-9999) and zones are recomputed under TLC.",
+        "note": "Trusted: Go's calendar and time-zone arithmetic; the Semver specification (C04). Bounds: the base/time/revision vocabulary of the exhaustive part.",
+        "technique": TLA + "pseudo-version specification over the semver specification; generated cases replayed, recorded calls trace-validated",
+    },
+    "C19": {
+        "text": "Bounded-exhaustive: DirHash.tla models the summary at text level with an abstract fixed-width digest; TLC checks order independence under all permutations, sortedness, injectivity against every one-file change/removal and newline refusal for all sets of up to 3/4 files over stress names; each set is hashed by dirhash.Hash1 in every listing order and compared with the formula written out in the harness over the specification's summary; random sets are recomputed under TLC; HashZip = HashDir = formula is evaluated on the archives produced in the module-zip replays.",
+        "note": "Trusted: SHA-256, hex and base64; the harness's independent rendering of the documented formula.",
+        "technique": TLA + "summary specification; generated file sets replayed in every listing order, recorded hashes trace-validated",
+    },
 }
 
 NOT_APPLICABLE = {}
